@@ -20,6 +20,7 @@ var registry = map[string]func(*chk.Run){
 	"C07": checks.C07,
 	"C08": checks.C08,
 	"C09": checks.C09,
+	"C10": checks.C10,
 	"C11": checks.C11,
 	"C12": checks.C12,
 	"C14": checks.C14,
